@@ -219,3 +219,44 @@ func VerifC03_Scope() {
 	vrt.Assert("C03.scope.noerr", err == nil)
 	vrt.Assert("C03.scope.agrees", bool(got) == want)
 }
+
+// VerifC03_PartialScope: the scope matcher of PartialPolicy (the path batch.Authorize
+// runs) decides `in` / `is .. in` scopes with fully known principal and resource by
+// the same reachability relation: the policy is kept exactly when the scope matches.
+func VerifC03_PartialScope() {
+	k := c03K()
+	s := c03New(k)
+	a, b := vrt.Choice("a", k), vrt.Choice("b", k)
+	env := Env{Entities: s, Principal: s.ids[a], Action: s.ids[a], Resource: s.ids[a], Context: types.Record{}}
+	p := &ast.Policy{Effect: ast.EffectPermit, Principal: ast.ScopeTypeAll{}, Action: ast.ScopeTypeAll{}, Resource: ast.ScopeTypeAll{}}
+	var want bool
+	switch vrt.Choice("form", 5) {
+	case 0:
+		p.Principal = ast.ScopeTypeIn{Entity: s.ids[b]}
+		want = s.reach(a, b)
+	case 1:
+		c := vrt.Choice("c", k)
+		p.Action = ast.ScopeTypeInSet{Entities: []types.EntityUID{s.ids[b], s.ids[c]}}
+		want = vrt.Or(s.reach(a, b), s.reach(a, c))
+	case 2:
+		p.Resource = ast.ScopeTypeIsIn{Type: "T", Entity: s.ids[b]}
+		want = vrt.And(s.ids[a].Type == "T", s.reach(a, b))
+	case 3:
+		p.Resource = ast.ScopeTypeIn{Entity: s.ids[b]}
+		want = s.reach(a, b)
+	case 4:
+		p.Principal = ast.ScopeTypeIsIn{Type: "T", Entity: s.ids[b]}
+		want = vrt.And(s.ids[a].Type == "T", s.reach(a, b))
+	}
+	res, keep := PartialPolicy(env, p)
+	if keep {
+		vrt.Cover("C03.partialscope.kept")
+		// a kept policy with everything known has no scope left to fail
+		be := BoolEvaler{eval: ToEval(PolicyToNode(res).AsIsNode())}
+		v, err := be.Eval(env)
+		vrt.Assert("C03.partialscope.kept-means-matching", want && err == nil && bool(v))
+	} else {
+		vrt.Cover("C03.partialscope.dropped")
+		vrt.Assert("C03.partialscope.dropped-means-not-matching", !want)
+	}
+}
